@@ -19,6 +19,8 @@ inductive NumErr where
   | invalidOperands      -- operand of another type (outside the model's domain: never produced)
   | unreachable          -- `errors.NewUnreachableError()` (e.g. `Negate` on unsigned types)
   | goPanic              -- a Go run-time panic (integer division by zero, nil dereference, …)
+  | userError            -- another user error (e.g. metering's "invalid left shift of non-Int64")
+  | nilValue             -- no error, but the method returns a nil value (a panic swallowed by `recover()`)
   deriving DecidableEq, Repr, Inhabited
 
 deriving instance DecidableEq for Except
@@ -26,7 +28,7 @@ deriving instance DecidableEq for Except
 def NumErr.name : NumErr → String
   | .overflow => "overflow" | .underflow => "underflow" | .divZero => "divzero"
   | .negativeShift => "negshift" | .invalidOperands => "invalidoperands"
-  | .unreachable => "unreachable" | .goPanic => "gopanic"
+  | .unreachable => "unreachable" | .goPanic => "gopanic" | .nilValue => "nil" | .userError => "usererror"
 
 /-- reduction into the unsigned `n`-bit range `[0, 2^n)` -/
 @[reducible] def wrapU (n : Nat) (x : Int) : Int := x % (2 : Int) ^ n
